@@ -75,7 +75,10 @@ func bsWriteScen(c *Ctx) {
 		}
 		w.z = r.Chance(1, 2)
 		w.present = r.Chance(1, 4)
-		w.inst = []string{"", "main", "a/b/c", "ünï"}[r.Weighted(4, 2, 1, 1)]
+		// (instance names whose segments merely contain a REAPI keyword are
+		// legal: only a segment *equal* to one is reserved; added after seeded
+		// change C16d)
+		w.inst = []string{"", "main", "a/b/c", "ünï", "ci-uploads", "org/nightly.uploads", "uploadsx/myblobs", "team_uploads/compressed-blobs2/x"}[r.Weighted(4, 2, 1, 1, 1, 1, 1, 1)]
 		w.meta = []string{"", "extra", "some/meta/data"}[r.Weighted(4, 1, 1)]
 		if !w.present && r.Chance(1, 3) {
 			w.viol = 1 + r.Intn(pvCount-1)
